@@ -69,6 +69,22 @@ CLAIMS["C15"] = {
     "note": "Necessary conditions only. " + _TB,
 }
 
+CLAIMS["C10"] = {
+    "text": "Decides the lockset and memory-order clauses of C10 for the whole library: an interprocedural lock-state "
+            "analysis (every root, every feasible path, callbacks resolved through function-pointer slots) shows that "
+            "each access to a lock-guarded field (about 60 fields of the handle, version set, versions, memtable/file "
+            "refcounts, snapshot list, writer queue, LRU shards, thread pool) is made with its lock class held, that every "
+            "ldb_mutex_assert_held contract and every cond_wait holds its mutex, that the listed lock-free exceptions are "
+            "confined (head-writer protocol, serialised MANIFEST writer, private stack objects), and that atomics are used "
+            "only through atomic builtins with at least release/acquire order, with the no-barrier skiplist accessors "
+            "confined to the single-writer insert and publish-after-link ordering. Races through user callbacks or "
+            "inside libc are not decided.",
+    "design_ref": "DESIGN.md 5/C10",
+    "technique": "static analysis: interprocedural lock-state (lockset) dataflow over the clang CFG and call graph + atomic-order table",
+    "note": "Lock identity is syntactic (one mutex per class per handle; three aliases listed in sa/locks.py). "
+            "The guarded-field table and the exception table are part of the trusted base. " + _TB,
+}
+
 _PENDING = ("check not built yet in this revision; the property is listed here so that it is not claimed "
             "without machinery (see DESIGN.md for the planned rules)")
 
